@@ -269,6 +269,23 @@ PROPS["C11"] = {
 }
 
 
+PROPS["C14"] = {
+    "level": "exploration",
+    "race": True,
+    "budget_s": {"quick": 90, "thorough": 2700},
+    "modes": [{"name": "", "runs": {"quick": 2500, "thorough": 70000}, "chunk": 250},
+              {"name": "race", "runs": {"quick": 70, "thorough": 2000}, "chunk": 5, "race": True}],
+    "rule": ("mode '' (tier E): one run = a fixed generated store and configuration whose single-request answer cannot depend on the schedule (rewrite-free or ||-only, limits non-binding) and 2-6 requests (check, batch check of 2-4 tuples, expand, list) started together in one synctest bubble; "
+             "4 (quick) / 12 (thorough) tape-chosen interleavings of ALL their storage calls; every concurrent result must equal the result of the same request run alone. "
+             "mode 'race' (-race build, GOMAXPROCS=1): a FRESH registry per run (no member warmed up) receives a burst of 3-8 concurrent read and write requests through the real routers and gRPC servers; the race detector works on happens-before, so unordered accesses are flagged without real parallelism; "
+             "a report halts the worker and is confirmed in a fresh process. non-trivial = the request set mixes at least two kinds (race: every burst); distinct = hash of (config, tuples, requests)."),
+    "probes": ["probe_requests_interleaved", "kind_check", "kind_batch", "kind_expand", "kind_list", "concurrent_requests"],
+    "real": REAL_E + ["race mode: real routers, gRPC servers over bufconn, freshly constructed registry, Go race detector"], "stub": STUB_E,
+    "fault_kinds": {},
+    "assumptions": ["the race clause is the weakest part: incidental mutex edges can hide a race in one order; absence of a report is weak evidence", "single-request answers are schedule-independent for the generated configurations (no && / !)"],
+}
+
+
 def evidence(prop, spec, tier, seed, records, deaths, unfinished, planned, wall_s, sim_wall_s, build_s, nworkers, n_new, known_hits):
     runs = 0
     execs = 0
@@ -355,6 +372,9 @@ def evidence(prop, spec, tier, seed, records, deaths, unfinished, planned, wall_
 
 SIM = "deterministic simulation with fault injection"
 MANIFEST_TEXT = {
+ "C14": {"text": "seeded sets of concurrent requests inside one scheduler bubble with all storage calls interleaved by the tape, each result compared with the request run alone; plus bursts of concurrent requests against a fresh registry under the Go race detector",
+         "note": "interleaving at storage-call granularity; the race clause relies on the detector's happens-before analysis and is weak evidence when clean",
+         "technique": SIM + ": seeded interleaving of several requests at the storage seam; race-detector build for the data-race clause"},
  "C11": {"text": "seeded typed OPL programs accepted by the real type checker, conforming stores, every declared (namespace, relation) checked under tape-chosen schedules: no schema error may surface; the rejection half is a plain generator check (not simulation), reported separately in the evidence",
          "note": "acceptance is decided by keto's own parser; programs it rejects are skipped; one open known finding (KF-15) is reported as KNOWN-FINDING",
          "technique": SIM + " for the run-time half (seeded scheduler at the storage seam); seeded generator check for the rejection half"},
